@@ -167,6 +167,7 @@ def run_vh(work, args, out_name, timeout, threads="2"):
     return out, rc
 
 
+SOURCE_OF = {}     # event line -> trace file it came from (for replay files)
 STATEFUL_OPS = ("kop", "sop", "lop", "view", "lc_compress", "lc_query", "lc_fixexts", "lc_recompress")
 RE_FAIL = re.compile(r'^<<"FAIL", (\d+), (-?\d+), "([^"]*)", \{([^}]*)\}(?:, (.*))?>>$')
 RE_DONE = re.compile(r'^<<"DONE", (\d+), (\d+)>>$')
@@ -182,6 +183,8 @@ def validate(work, trace_spec, trace_files, nproc, timeout, depth=0):
                 ln = ln.strip()
                 if ln:
                     events.append(ln)
+                    if ln not in SOURCE_OF:
+                        SOURCE_OF[ln] = tf
     n = len(events)
     if n == 0:
         return [], 0, 0
@@ -240,6 +243,7 @@ def validate(work, trace_spec, trace_files, nproc, timeout, depth=0):
                 idx = int(m.group(1))
                 clauses = set(c.strip().strip('"') for c in m.group(4).split(",") if c.strip())
                 ev = json.loads(sh[idx - 1])
+                ev["_src"] = SOURCE_OF.get(sh[idx - 1], "")
                 if stateful and ev.get("op") in STATEFUL_OPS:
                     # a stateful event is replayable only with its history: keep everything from its `begin`
                     b = idx - 1
@@ -264,6 +268,7 @@ def validate(work, trace_spec, trace_files, nproc, timeout, depth=0):
                 raise ToolError("TLC trace validation (%s) did not consume the whole trace %s" % (trace_spec, outp))
             bad = consumed                                   # 1-based index of the event being evaluated when TLC stopped
             ev = json.loads(sh[bad - 1])
+            ev["_src"] = SOURCE_OF.get(sh[bad - 1], "")
             err = ""
             em = re.search(r"Error: (.*)", txt)
             if em:
